@@ -132,6 +132,8 @@ pub fn dispatch(n: usize, df: Df, pre: &[u8], ri: usize, srw: &Srw, maxcalls: us
         64 => rf_line::<64>(df, pre, ri, srw, maxcalls, w),
         96 => rf_line::<96>(df, pre, ri, srw, maxcalls, w),
         128 => rf_line::<128>(df, pre, ri, srw, maxcalls, w),
+        4200 => rf_line::<4200>(df, pre, ri, srw, maxcalls, w),
+        8192 => rf_line::<8192>(df, pre, ri, srw, maxcalls, w),
         _ => false,
     }
 }
@@ -266,7 +268,62 @@ pub fn run(mode: &str, thorough: bool, seed: u64, w: &mut impl std::io::Write) {
             n += 1;
         }
     }
-    eprintln!("STAT rf mode={} scenarios={} exhaustive_stream_len={} alphabet=4 sizes={:?} long_frame_scenarios={}", mode, n, if errors { maxlen - 1 } else { maxlen }, sizes, lcases);
+    // dictionary: frames that start with / contain / end with the byte strings the source mentions as literals
+    let dict = dict();
+    let mut dn = 0usize;
+    for t in dict.iter().take(120) {
+        for df in [Df::Line, Df::Crlf, Df::Null] {
+            let term: &[u8] = match df { Df::Crlf => b"\r\n", Df::Null => b"\0", _ => b"\n" };
+            if t.windows(term.len()).any(|x| x == term) {
+                continue; // the token would itself end the frame: covered by the exhaustive small streams
+            }
+            let data: Vec<u8> = [&t[..], b"abc", term, b"k", &t[..], term, &t[..], b"q", &t[..], term, &t[..]].concat();
+            for size in [16usize, 33, 64] {
+                if data.len() > 3 * size {
+                    continue;
+                }
+                for chunk in [1usize, 3, 1000] {
+                    let mut racts: Vec<RAct> = (0..data.len() / chunk + 1).map(|_| RAct::Data(chunk, false)).collect();
+                    if errors {
+                        racts.insert(racts.len() / 2, RAct::Err(4));
+                    }
+                    let srw = mk(1, &data, racts);
+                    if dispatch(size, df, &[], 0, &srw, 30, w) {
+                        n += 1;
+                        dn += 1;
+                    }
+                }
+            }
+        }
+    }
+    // buffers beyond 4 KiB (size_of thresholds, windows): frames shorter and longer than 4096, several in the buffer
+    let bcases = if thorough { 120 } else { 24 };
+    for i in 0..bcases {
+        let size = [4200usize, 8192][i % 2];
+        let df = [Df::Line, Df::Crlf, Df::Null][i % 3];
+        let term: &[u8] = match df { Df::Crlf => b"\r\n", Df::Null => b"\0", _ => b"\n" };
+        let mut data: Vec<u8> = vec![];
+        for fl in [5usize, [4090usize, 4096, 4100, 4199 - term.len()][i % 4], 0, 17, [100usize, 4097, 8000, 8193][(i / 4) % 4]] {
+            for j in 0..fl {
+                data.push(b'a' + (j % 23) as u8);
+            }
+            data.extend_from_slice(term);
+        }
+        let racts: Vec<RAct> = match i % 3 {
+            0 => vec![],
+            1 => (0..40).map(|_| RAct::Data([1usize, 4095, 4096, 4097, 100][rng.below(5)], false)).collect(),
+            _ => (0..12).map(|_| RAct::Data(1000, rng.chance(1, 4))).collect(),
+        };
+        let mut racts = racts;
+        if errors {
+            racts.insert(racts.len().min(2), RAct::Err(5));
+        }
+        let srw = mk(1, &data, racts);
+        if dispatch(size, df, &[], 0, &srw, 16, w) {
+            n += 1;
+        }
+    }
+    eprintln!("STAT rf mode={} scenarios={} exhaustive_stream_len={} alphabet=4 sizes={:?} long_frame_scenarios={} dictionary_scenarios={} big_buffer_scenarios={}", mode, n, if errors { maxlen - 1 } else { maxlen }, sizes, lcases, dn, bcases);
 }
 
 pub fn replay_line(l: &str, w: &mut impl std::io::Write) -> bool {
